@@ -794,6 +794,26 @@ class SAgg:
         self.kind, self.shape, self.pred, self.val = kind, tuple(shape), pred, val
 
 
+def _mentions_bound(terms, allowed):
+    """Does any term contain a quantifier variable of the contract language ('bv!...') other than
+    the allowed ones (free, i.e. not under a z3 binder of its own)?"""
+    seen = set()
+    todo = list(terms)
+    while todo:
+        t = todo.pop()
+        if not is_z3(t) or t.get_id() in seen:
+            continue
+        seen.add(t.get_id())
+        if z3.is_quantifier(t):
+            continue          # variables bound inside are de Bruijn indices, not constants
+        if z3.is_const(t) and t.decl().kind() == z3.Z3_OP_UNINTERPRETED:
+            nm = str(t)
+            if nm.startswith('bv!') and nm not in allowed:
+                return True
+        todo.extend(t.children())
+    return False
+
+
 def count_term(ex, agg, st):
     """An integer for a COUNT reduction: c = #{p in box : pred(p)}, known through
       0 <= c <= size of the box;   c == 0  <=>  no p in the box has pred(p);
@@ -811,8 +831,13 @@ def count_term(ex, agg, st):
     size = num_term(agg.shape[0])
     for d in agg.shape[1:]:
         size = size * num_term(d)
-    st.fact(z3.And(c >= 0, c <= size))
     pv = to_bool(agg.pred(tuple(vs)))
+    # the integer is one constant: inside a quantifier that is not skolemised it would have to be
+    # a function of the bound variables
+    own = {str(v) for v in vs}
+    if _mentions_bound([pv, size], own):
+        raise Unsupported('COUNT reduction under a quantifier that is not skolemised')
+    st.fact(z3.And(c >= 0, c <= size))
     st.fact(z3.Implies(c == 0, z3.ForAll(vs, z3.Implies(inb, z3.Not(pv)))))
     st.fact(z3.Implies(z3.ForAll(vs, z3.Implies(inb, z3.Not(pv))), c == 0))
     for other, oterm in st.count_aggs:
